@@ -221,13 +221,16 @@ func VerifC04FlattenChild() {
 	data, err := m.MarshalJSON()
 	verif.Assert("C04/flatten-child/marshal-ok", err == nil)
 	if m.Home != nil && (m.Home.StreetName != "" || m.Home.ZipCode != 0) {
-		// known finding: the child is encoded with encoding/json (Go struct tags: snake_case
-		// keys, 64-bit integers as numbers) instead of its proto3 JSON form
-		verif.Expect("KF-C05-flatten-child-encoded-with-go-struct-tags", verif.JEqual(data, refFlattenChildMsg(m)))
-		verif.Reach("C05/flatten-child/kf")
-		return
+		verif.Reach("C05/flatten-child/non-default") // region of the struct-tag encoding defect repaired in c03bf04
 	}
 	verif.Assert("C05/flatten-child/wire=reference-mapping", verif.JEqual(data, refFlattenChildMsg(m)))
+	var back FlattenChildMsg
+	verif.Assert("C04/flatten-child/unmarshal-own-output", back.UnmarshalJSON(data) == nil)
+	same := verif.And(back.Id == m.Id, (back.Home != nil) == (m.Home != nil && (m.Home.StreetName != "" || m.Home.ZipCode != 0)))
+	if back.Home != nil && m.Home != nil {
+		same = verif.And(same, back.Home.StreetName == m.Home.StreetName, back.Home.ZipCode == m.Home.ZipCode)
+	}
+	verif.Assert("C04/flatten-child/round-trip", same)
 	verif.Reach("C04/flatten-child/decided")
 }
 
